@@ -158,6 +158,27 @@ type clientStreamWrapper struct {
 	grpc.ClientStream
 }
 
+// The finalizer above is attached to the wrapper, but the promoted methods
+// run with the wrapped stream as their receiver. If a blocking call is the
+// caller's last use of the wrapper, the wrapper could be collected (and the
+// call cancelled by the finalizer) while that call is still in progress. So
+// the operations that can block keep the wrapper alive until they return.
+
+func (w *clientStreamWrapper) Header() (metadata.MD, error) {
+	defer runtime.KeepAlive(w)
+	return w.ClientStream.Header()
+}
+
+func (w *clientStreamWrapper) SendMsg(m interface{}) error {
+	defer runtime.KeepAlive(w)
+	return w.ClientStream.SendMsg(m)
+}
+
+func (w *clientStreamWrapper) RecvMsg(m interface{}) error {
+	defer runtime.KeepAlive(w)
+	return w.ClientStream.RecvMsg(m)
+}
+
 func getPeer(baseUrl *url.URL, tls *tls.ConnectionState) *peer.Peer {
 	hostPort := baseUrl.Host
 	if !strings.Contains(hostPort, ":") {
